@@ -64,3 +64,45 @@ Example ex_mux_fallback :
   written (serve_all ex_c (fun _ => mux_handler (mkmux sv_ns_client true []) (c_jp ex_c) 10) iq_get)
   = fallback_reply (mkiqv (cl "iq") (str "1234") sv_iq_get [] (str "a@example.net/r") []).
 Proof. vm_compute. reflexivity. Qed.
+
+(* ---- outstanding requests: our own request with id 1234 is waiting while the
+   peer's get with the same id, then the response, then a set with that id arrive ---- *)
+Definition ex_waiter : pentry :=
+  mkpe (str "1234") (mkname [] s_iq) true (compile [ORead 1 false; OReadRet 40]).
+
+Definition ex_collide : list token :=
+  [TStart (cl "iq") [at' "type" "get"; at' "id" "1234"; at' "from" "a@example.net/r"]; TEnd (cl "iq");
+   TStart (cl "iq") [at' "type" "result"; at' "id" "1234"]; TStart (cl "q") []; TEnd (cl "q"); TEnd (cl "iq");
+   TStart (cl "iq") [at' "type" "set"; at' "id" "1234"]; TEnd (cl "iq");
+   TEnd stream_root].
+
+Definition run_p : sres_p := serve_all_p ex_c env_id (prog_handlers [[]]) [ex_waiter] ex_collide.
+
+(* the request is handled and answered, the response goes to the waiter (start
+   tag, payload, end tag together with EOF), the later request with the same id
+   is handled again: the registration is gone *)
+Example ex_collide_run :
+  ends_match [stream_root] ex_collide = true /\
+  sp_ret run_p = None /\
+  map (fun ev => match ev with EvInv v => (true, snd (get_id_typ (v_attrs v))) | EvDiv d => (false, snd (get_id_typ (d_attrs d))) end)
+      (sp_events run_p) = [(true, sv_iq_get); (false, sv_iq_result); (true, sv_iq_set)] /\
+  written_p run_p = default_reply (str "1234") (str "a@example.net/r") ++ default_reply (str "1234") [] /\
+  map d_seen (divs_of (sp_events run_p)) =
+    [[ok_res (TStart (cl "iq") [at' "type" "result"; at' "id" "1234"]); ok_res (TStart (cl "q") []); ok_res (TEnd (cl "q"));
+      (Some (TEnd (cl "iq")), Some EEOF)]].
+Proof. vm_compute. repeat split; reflexivity. Qed.
+
+(* the hypotheses of C07_only_responses_reach_waiters are satisfiable, and a
+   waiter whose context is done leaves the response to nobody *)
+Example ex_diverted_to :
+  diverted_to [ex_waiter] (cl "iq") [at' "type" "result"; at' "id" "1234"] = Some ex_waiter /\
+  diverted_to [ex_waiter] (cl "iq") [at' "type" "get"; at' "id" "1234"] = None /\
+  diverted_to [ex_waiter] (cl "message") [at' "type" "error"; at' "id" "1234"] = None /\
+  diverted_to [ex_waiter] (cl "iq") [at' "type" "error"; at' "id" "other"] = None.
+Proof. vm_compute. repeat split; reflexivity. Qed.
+
+Example ex_cancelled_waiter :
+  let r := serve_all_p ex_c env_id (prog_handlers [[]])
+             [mkpe (str "1234") (mkname [] s_iq) false (HRet None)] ex_collide in
+  map d_taken (divs_of (sp_events r)) = [false] /\ length (invs_of (sp_events r)) = 2 /\ sp_ret r = None.
+Proof. vm_compute. repeat split; reflexivity. Qed.
